@@ -12,7 +12,9 @@ EXPLANATION = (
     "builds Ok only there; (R-HEUR) trial formatting inside function_args_multiline_heuristic is bounded by the "
     "simple_heuristics flag; (R-BELIEF) the failure edge of a text conversion of token text (str::parse, "
     "from_str_radix, ...) never runs straight into unreachable!/panic!/unwrap - Lua's literal grammar is wider than "
-    "Rust's parsers. Decides these clauses, not the behaviour: value-dependent panics (usize "
+    "Rust's parsers; (R-PAREN, role prefix) the stated belief of block::prefix_remove_leading_newlines - a formatted "
+    "Prefix::Expression is always Expression::Parentheses, else unreachable!() - holds on every layout path: no context "
+    "with which an expression in prefix role reaches the parenthesis gate removes parentheses of any kind. Decides these clauses, not the behaviour: value-dependent panics (usize "
     "subtraction, unwrap on positions), stack depth and running time are not decided (census reported only).")
 ASSUMPTIONS = [
     "rustc MIR and Instance::try_resolve are trusted",
@@ -346,4 +348,11 @@ def run(ctx):
     reps.append(rule_heur(ctx, "C07"))
     reps.append(rule_belief(ctx, "C07"))
     reps.append(rule_census(ctx, "C07"))
+    # the stated belief of block::prefix_remove_leading_newlines (`other => unreachable!("got non-parentheses expression
+    # as prefix")`): a Prefix::Expression leaves the formatter parenthesised on every layout path
+    import r_paren
+    reps.append(r_paren.rule_paren(ctx, "C07", parts=("oracle",), roles=("prefix",), all_kinds=True,
+                                   why="so the formatted Prefix::Expression is no longer Expression::Parentheses and "
+                                       "block::prefix_remove_leading_newlines reaches its unreachable!() when the statement "
+                                       "is the first of its block: format_code panics on a valid program"))
     return reps
